@@ -323,6 +323,7 @@ func checkC20(c *Check) {
 		}
 	}
 	poolInsertIsFinal(c, "C20.R4")
+	transportIsOwn(c, "C20.R3")
 	// the watcher re-reads the path that was configured: the file reader keeps its constructor argument as given (a
 	// path resolved once — EvalSymlinks, Abs — keeps pointing at the old target after a symlink-swap rotation, which
 	// is how Kubernetes updates mounted secrets)
@@ -682,4 +683,49 @@ func poolInsertKey(fn *ssa.Function) ssa.Value {
 		}
 	}
 	return nil
+}
+
+// transportIsOwn: every store into a field of an *http.Transport in own code targets a transport created in
+// the same activation (the result of Clone() or a literal): the TLS configuration, proxy and timeouts of one
+// filter's IdP client are never written into a transport that other handlers use.
+func transportIsOwn(c *Check, rule string) {
+	P := c.P
+	n := 0
+	for _, fn := range P.Funcs {
+		if !isOwnPath(pkgPathOf(fn)) {
+			continue
+		}
+		for _, b := range fn.Blocks {
+			for _, ins := range b.Instrs {
+				st, ok := ins.(*ssa.Store)
+				if !ok {
+					continue
+				}
+				fa, isF := st.Addr.(*ssa.FieldAddr)
+				if !isF || typeID(derefType(fa.X.Type())) != "net/http.Transport" {
+					continue
+				}
+				n++
+				bad := ""
+				for _, l := range Leaves(fa.X, leafOpts{noConcat: true}) {
+					l = resolveCell(stripConv(l))
+					if al, isA := l.(*ssa.Alloc); isA && al.Parent() == fn {
+						continue
+					}
+					if cl, _, isC := asCall(l); isC && cl.Parent() == fn && isCallTo(cl, "net/http.Transport.Clone") {
+						continue
+					}
+					bad = descDepth(l, 3)
+				}
+				f := fieldOf(fa.X.Type(), fa.Field)
+				name := "?"
+				if f != nil {
+					name = f.Name()
+				}
+				c.Obl(bad == "", rule, "transport-is-own/"+fnKey(fn)+"/"+name, P.Pos(st.Pos()), "Transport."+name+" is set on a transport created in this call",
+					"Transport."+name+" is written on "+bad+", a transport that is not created in this call: the setting of the handler built last governs the requests of every handler sharing it")
+			}
+		}
+	}
+	c.Obl(n >= 1, rule, "transport-field-writes", "-", fmt.Sprintf("%d writes to http.Transport fields, each on an own transport", n), "no write to an http.Transport field found (anchor lost)")
 }
